@@ -43,11 +43,28 @@ def run(ctx):
     sers = [c for c in ft.calls() if c.callee == SER]
     run.floor("C07.T1", "serialize call sites in cell_to_children", len(sers), 1)
     lps = loops_of(ft)
+    def decoded(t):
+        t = peel(t)
+        return t[0] == "payload" and t[1] == "Ok" and t[2][0] == "call" and t[2][1] == DES and peel(t[2][2][0]) == ("param", 1)
+
+    def same_res_guard(ftx, c):
+        """serialize(decoded cell) is the canonical form of the input itself: only valid when target == current"""
+        for d, vals, other, excl, _b in ftx.conditions(c.block):
+            if d[0] == "bin" and d[1] == "Eq" and ((other and 0 in excl) or (vals and 0 not in vals)):
+                if any(dec_field(x, "resolution") for x in (d[2], d[3])):
+                    return True
+        return False
+    nbuilt = 0
     for c in sers:
         cell = peel(c.args[0])
+        if decoded(c.args[0]):
+            run.inst("C07.T5", "children-same-resolution-canonical", same_res_guard(ft, c),
+                     "the decoded input cell is re-serialised only when target == current resolution", where(c.span))
+            continue
         if cell[0] != "agg" or not cell[4]:
             run.bad("C07.T1", "children-cell", "serialize argument is %s - unrecognised idiom" % fmt(cell), where(c.span))
             continue
+        nbuilt += 1
         f = dict(zip(cell[4], cell[3]))
         T = f["resolution"]
         okT = T[0] == "call" and T[1].endswith("Option::unwrap_or") and T[2][0] == ("param", 2)
@@ -208,6 +225,10 @@ def run(ctx):
     run.floor("C07.T1", "serialize call sites in cell_to_parent", len(sers), 1)
     for c in sers:
         cell = peel(c.args[0])
+        if decoded(c.args[0]):
+            run.inst("C07.T5", "parent-same-resolution-canonical", same_res_guard(fp, c),
+                     "the decoded input cell is re-serialised only when target == current resolution", where(c.span))
+            continue
         if cell[0] != "agg" or not cell[4]:
             run.bad("C07.T1", "parent-cell", "serialize argument is %s - unrecognised idiom" % fmt(cell), where(c.span))
             continue
